@@ -677,27 +677,46 @@ func Run(t *testing.T, plan *Plan, st *core.Stream, extra Extra, keepLog bool) (
 
 func (w *World) teardown() {
 	w.dead = true
-	// release everything that is parked
-	for i := 0; i < 200; i++ {
+	// drainOnce fails every parked HTTP/PG/step event and grants lock
+	// requests that are enabled (never one whose lock is still held: the
+	// real Lock() behind it would block on a mutex, which synctest cannot
+	// wait out). Returns whether anything is still parked.
+	drainOnce := func() (left int, progressed bool) {
 		synctest.Wait()
-		pend := w.sched.All()
-		if len(pend) == 0 {
-			break
-		}
-		for _, p := range pend {
+		for _, p := range w.sched.All() {
 			switch p.Kind {
-			case "step":
-				w.sched.Release(p, stopSignal{})
+			case "lock":
 			case "http":
 				w.sched.Release(p, httpResult{err: errors.New("connection reset (teardown)")})
+				progressed = true
 			case "pg":
 				w.sched.Release(p, pgDecision{v: fakepg.DropBefore})
-			case "lock":
-				w.sched.ReleaseLock(p.Lock)
-				w.sched.Release(p, nil)
+				progressed = true
 			default:
 				w.sched.Release(p, stopSignal{})
+				progressed = true
 			}
+		}
+		synctest.Wait()
+		for _, p := range w.sched.Collect() {
+			if p.Kind == "lock" {
+				w.sched.Release(p, nil)
+				progressed = true
+				synctest.Wait()
+				break
+			}
+		}
+		return len(w.sched.All()), progressed
+	}
+	for i := 0; i < 400; i++ {
+		left, progressed := drainOnce()
+		if left == 0 {
+			break
+		}
+		if !progressed {
+			// holders of the remaining locks are stalled requests: let their
+			// client timeouts fire
+			time.Sleep(11 * time.Second)
 		}
 	}
 	w.srv.CloseAll()
@@ -709,26 +728,16 @@ func (w *World) teardown() {
 	}
 	// let pollers tick once more and exit, stalled requests time out, and pgxpool timers drain
 	time.Sleep(12 * time.Second)
-	for i := 0; i < 50; i++ {
-		synctest.Wait()
-		pend := w.sched.All()
-		if len(pend) == 0 {
+	for i := 0; i < 100; i++ {
+		left, progressed := drainOnce()
+		if left == 0 {
 			break
 		}
-		for _, p := range pend {
-			switch p.Kind {
-			case "http":
-				w.sched.Release(p, httpResult{err: errors.New("connection reset (teardown)")})
-			case "pg":
-				w.sched.Release(p, pgDecision{v: fakepg.DropBefore})
-			case "lock":
-				w.sched.ReleaseLock(p.Lock)
-				w.sched.Release(p, nil)
-			default:
-				w.sched.Release(p, stopSignal{})
-			}
+		if !progressed {
+			time.Sleep(11 * time.Second)
+		} else {
+			time.Sleep(2 * time.Second)
 		}
-		time.Sleep(2 * time.Second)
 	}
 	synctest.Wait()
 }
